@@ -12,6 +12,7 @@ to on its path, states are joined where branches meet and around loops.
 
 import ast
 
+from . import alias as _alias
 from .astutil import call_name
 
 MUTATING_METHODS = {"remove", "append", "extend", "pop", "clear", "sort", "reverse", "insert", "add", "discard", "update",
@@ -30,33 +31,9 @@ def _params(fn):
     return [x.arg for x in a.posonlyargs + a.args + a.kwonlyargs]
 
 
-def _may_alias(e, al):
-    if isinstance(e, ast.Name):
-        return set(al.get(e.id, ()))
-    if isinstance(e, ast.IfExp):
-        return _may_alias(e.body, al) | _may_alias(e.orelse, al)
-    if isinstance(e, ast.BoolOp):
-        out = set()
-        for v in e.values:
-            out |= _may_alias(v, al)
-        return out
-    if isinstance(e, ast.NamedExpr):
-        return _may_alias(e.value, al)
-    if isinstance(e, ast.Attribute):
-        return _may_alias(e.value, al)       # `p.bonds`, `p.coord`: part of the state of p
-    if isinstance(e, ast.Call):
-        fn = call_name(e) or ""
-        if fn in _IDENTITY_CALLS and e.args:
-            return _may_alias(e.args[0], al)
-        if isinstance(e.func, ast.Attribute) and e.func.attr in _IDENTITY_METHODS:
-            return _may_alias(e.func.value, al)
-        if isinstance(e.func, ast.Attribute) and e.func.attr == "astype" and any(
-                k.arg == "copy" and isinstance(k.value, ast.Constant) and k.value.value is False for k in e.keywords):
-            return _may_alias(e.func.value, al)
-    if isinstance(e, ast.Subscript) and isinstance(e.slice, (ast.Slice, ast.Tuple)) or \
-            isinstance(e, ast.Subscript) and isinstance(e.slice, ast.Constant) and e.slice.value is Ellipsis:
-        return _may_alias(e.value, al)       # basic slicing of an array is a view
-    return set()
+def _may_alias(e, al, local_callables=(), on_call=None):
+    """origins (parameters) whose objects the value of `e` may share storage with (alias.roots)"""
+    return _alias.roots(e, al, local_callables, on_call)
 
 
 def _base(t):
@@ -78,10 +55,12 @@ def param_mutations(funcs):
         rounds += 1
         for q, f in funcs.items():
             found = _scan(q, f, funcs, by_name, result)
-            if {k: len(v) for k, v in found.items()} != {k: len(v) for k, v in result[q].items()}:
+            if {k: len(v) for k, v in found.items()} != {k: len(v) for k, v in result[q].items()} or \
+                    found.get("__returns__") != result[q].get("__returns__"):
                 result[q] = found
                 changed = True
-    return result
+    # `__returns__` (parameters the return value may share storage with) is the callee summary used for calls inside the module
+    return {q: {k: v for k, v in r.items() if k != "__returns__"} for q, r in result.items()}
 
 
 _ESCAPES = {}
@@ -98,10 +77,63 @@ def _union(a, b):
 
 
 def _scan(q, f, funcs, by_name, result):
+    """one pass over a function.  State `al`: name -> origins (parameters) whose object the name may BE; "*name" -> origins whose
+    objects it may HOLD as items (alias.roots2).  A store into `c[k]` changes c, a store into `c[k][i]` what c holds."""
     ps = _params(f)
     found = {}
     escapes = _ESCAPES.setdefault(id(f), {})
     escapes.clear()
+    local_callables = _alias.local_callable_names(f)
+    returned = set()
+    nested = []
+    depth = [0]
+    state = {"al": {}}
+
+    def R2(e, al):
+        state["al"] = al
+        same = {k: v for k, v in al.items() if not k.startswith("*")}
+        held = {k[1:]: v for k, v in al.items() if k.startswith("*")}
+        return _alias.roots2(e, same, local_callables, on_call, held)
+
+    def both(pr):
+        return pr[0] | pr[1]
+
+    def elem(pr):
+        return pr[0] | pr[1], set(pr[1])
+
+    def setname(al, name, pr):
+        al[name] = set(pr[0])
+        al["*" + name] = set(pr[1])
+
+    def hold(al, target_value, pr):
+        b = _alias.base_name(target_value)
+        if b is not None and (pr[0] or pr[1]):
+            al["*" + b] = set(al.get("*" + b, ())) | pr[0] | pr[1]
+
+    def on_call(c):
+        """result of a call of a function of this module: what the callee's own return value may share storage with"""
+        cn = call_name(c) or ""
+        short = cn.split(".")[-1]
+        cands = [x for x in by_name.get(short, []) if cn == short or cn.startswith(("self.", "cls."))]
+        if not cands or (isinstance(c.func, ast.Name) and c.func.id in local_callables):
+            return None
+        al = state["al"]
+        out = set()
+        for callee in cands:
+            cps = _params(funcs[callee])
+            rets = result.get(callee, {}).get("__returns__", ())
+            if "." in callee and cps and cps[0] in ("self", "cls") and cn.startswith(("self.", "cls.")):
+                if cps[0] in rets:
+                    out |= both(R2(c.func.value, al))
+                cps = cps[1:]
+            for k, a in enumerate(c.args):
+                if k < len(cps) and cps[k] in rets:
+                    out |= both(R2(a, al))
+            for kw in c.keywords:
+                if kw.arg in rets:
+                    out |= both(R2(kw.value, al))
+        state["al"] = al
+        return out
 
     def hit(names, line, what):
         for p in names:
@@ -111,55 +143,108 @@ def _scan(q, f, funcs, by_name, result):
 
     def visit_expr(node, al):
         for c in ast.walk(node):
+            if isinstance(c, ast.NamedExpr) and isinstance(c.target, ast.Name):
+                pr = R2(c.value, al)
+                setname(al, c.target.id, (set(al.get(c.target.id, ())) | pr[0], set(al.get("*" + c.target.id, ())) | pr[1]))
             if isinstance(c, ast.Call):
                 if isinstance(c.func, ast.Attribute) and c.func.attr in MUTATING_METHODS:
-                    hit(_may_alias(c.func.value, al), c.lineno, f".{c.func.attr}()")
+                    hit(R2(c.func.value, al)[0], c.lineno, f".{c.func.attr}()")
+                    for a in list(c.args) + [k.value for k in c.keywords]:
+                        hold(al, c.func.value, R2(a, al))          # xs.append(p): xs now holds p
                 for k in c.keywords:
                     if k.arg == "out":
-                        hit(_may_alias(k.value, al), c.lineno, "out=")
+                        hit(R2(k.value, al)[0], c.lineno, "out=")
                 # calls of functions of this module that change their parameter
                 cn = call_name(c) or ""
                 short = cn.split(".")[-1]
                 cands = [x for x in by_name.get(short, []) if cn == short or cn.startswith(("self.", "cls."))]
+                if isinstance(c.func, ast.Name) and c.func.id in local_callables:
+                    cands = []
                 for callee in cands:
                     cps = _params(funcs[callee])
                     if "." in callee and cps and cps[0] in ("self", "cls") and cn.startswith(("self.", "cls.")):
                         cps = cps[1:]
                     for k, a in enumerate(c.args):
-                        if k < len(cps) and cps[k] in result.get(callee, {}):
-                            hit(_may_alias(a, al), c.lineno, f"{short}() changes its parameter {cps[k]}")
+                        if k < len(cps) and cps[k] in result.get(callee, {}) and cps[k] != "__returns__":
+                            hit(R2(a, al)[0], c.lineno, f"{short}() changes its parameter {cps[k]}")
                     for kw in c.keywords:
-                        if kw.arg in result.get(callee, {}):
-                            hit(_may_alias(kw.value, al), c.lineno, f"{short}() changes its parameter {kw.arg}")
+                        if kw.arg in result.get(callee, {}) and kw.arg != "__returns__":
+                            hit(R2(kw.value, al)[0], c.lineno, f"{short}() changes its parameter {kw.arg}")
+
+    def store_into(t, al, line, what, value_pr=None):
+        """`t` is a Subscript / Attribute target: the object that changes is what `t.value` may be"""
+        b = _base(t)
+        if not (isinstance(t, ast.Attribute) and isinstance(b, ast.Name) and b.id in ("self", "cls") and t.value is b and "self" not in ps[:1]):
+            if not (isinstance(t, ast.Attribute) and isinstance(b, ast.Name) and b.id in ("self", "cls") and t.value is b):
+                hit(R2(t.value, al)[0], line, what)
+            elif isinstance(b, ast.Name) and b.id in ps[:1]:
+                hit(R2(t.value, al)[0], line, what)
+        if value_pr is not None:
+            hold(al, t.value, value_pr)
+
+    def bind_target(t, pr, al):
+        if isinstance(t, ast.Name):
+            setname(al, t.id, pr)
+        elif isinstance(t, ast.Starred):
+            bind_target(t.value, pr, al)
+        elif isinstance(t, (ast.Tuple, ast.List)):
+            for x in t.elts:
+                bind_target(x, elem(pr), al)
+
+    def copy_state(al):
+        return {k: set(v) for k, v in al.items()}
 
     def run(block, al):
         """forward may-alias analysis: returns the state after the block (assignments are strong updates of the path's state,
         states are joined where paths meet)"""
         for st in block:
-            if isinstance(st, (ast.FunctionDef, ast.AsyncFunctionDef, ast.ClassDef)):
+            if isinstance(st, ast.ClassDef):
+                continue
+            if isinstance(st, (ast.FunctionDef, ast.AsyncFunctionDef)):
+                # a nested function sees the caller's names; whatever it does to them happens when it is called
+                nested.append(st)
+                inner = copy_state(al)
+                for a_ in ast.walk(st.args):
+                    if isinstance(a_, ast.arg):
+                        setname(inner, a_.arg, (set(), set()))
+                depth[0] += 1
+                run(st.body, inner)
+                depth[0] -= 1
                 continue
             if isinstance(st, ast.Assign):
                 visit_expr(st.value, al)
-                new = _may_alias(st.value, al)
+                new = R2(st.value, al)
                 for t in st.targets:
-                    if isinstance(t, ast.Name):
-                        al[t.id] = set(new)
-                    elif isinstance(t, (ast.Subscript, ast.Attribute)):
+                    if isinstance(t, (ast.Tuple, ast.List)) and isinstance(st.value, (ast.Tuple, ast.List)) and len(t.elts) == len(st.value.elts) \
+                            and not any(isinstance(x, ast.Starred) for x in list(t.elts) + list(st.value.elts)):
+                        parts = [R2(v, al) for v in st.value.elts]
+                        for x, pv in zip(t.elts, parts):
+                            if isinstance(x, (ast.Subscript, ast.Attribute)):
+                                store_into(x, al, st.lineno, "store into " + ast.unparse(x)[:30], pv)
+                            else:
+                                bind_target(x, pv, al)
+                        continue
+                    if isinstance(t, (ast.Subscript, ast.Attribute)):
                         b = _base(t)
                         if isinstance(b, ast.Name) and not (isinstance(t, ast.Attribute) and b.id in ("self", "cls")):
-                            hit(al.get(b.id, ()), st.lineno, "store into " + ast.unparse(t)[:30])
+                            hit(R2(t.value, al)[0], st.lineno, "store into " + ast.unparse(t)[:30])
                         if isinstance(t, ast.Attribute) and isinstance(b, ast.Name) and b.id == "self" and t.value is b:
-                            for p_ in new - {"self"}:
+                            for p_ in new[0] - {"self"}:
                                 escapes.setdefault(p_, []).append((st.lineno, "self." + t.attr))
+                        hold(al, t.value, new)          # the container / object now holds the value: `box[0] = p`
                     elif isinstance(t, (ast.Tuple, ast.List)):
-                        for x in ast.walk(t):
-                            if isinstance(x, ast.Name) and isinstance(x.ctx, ast.Store):
-                                al[x.id] = set()
+                        for x in t.elts:
+                            if isinstance(x, (ast.Subscript, ast.Attribute)):
+                                store_into(x, al, st.lineno, "store into " + ast.unparse(x)[:30], elem(new))
+                            else:
+                                bind_target(x, elem(new), al)      # items of what is unpacked
+                    else:
+                        bind_target(t, new, al)
                 continue
             if isinstance(st, ast.AnnAssign):
                 if st.value is not None and isinstance(st.target, ast.Name):
                     visit_expr(st.value, al)
-                    al[st.target.id] = _may_alias(st.value, al)
+                    setname(al, st.target.id, R2(st.value, al))
                 continue
             if isinstance(st, ast.AugAssign):
                 visit_expr(st.value, al)
@@ -167,58 +252,56 @@ def _scan(q, f, funcs, by_name, result):
                 if isinstance(b, ast.Name) and not getattr(st, "_rebind", False) and not (isinstance(st.target, ast.Attribute) and b.id in ("self", "cls")):
                     if isinstance(st.target, ast.Name) and isinstance(st.value, (ast.Constant, ast.JoinedStr)) and not isinstance(st.op, ast.Mult):
                         pass     # `n += 1`, `s += "x"`: numbers and strings are immutable
-                    else:
+                    elif isinstance(st.target, ast.Name):
                         hit(al.get(b.id, ()), st.lineno, ast.unparse(st)[:30])
+                    else:
+                        hit(R2(st.target.value, al)[0], st.lineno, ast.unparse(st)[:30])
+                elif isinstance(b, ast.Name) and getattr(st, "_rebind", False) and isinstance(st.target, ast.Name):
+                    setname(al, b.id, (set(), set()))
                 continue
             if isinstance(st, ast.Delete):
                 for t in st.targets:
                     b = _base(t)
                     if isinstance(b, ast.Name) and b is not t:
-                        hit(al.get(b.id, ()), st.lineno, "del " + ast.unparse(t)[:30])
+                        hit(R2(t.value, al)[0], st.lineno, "del " + ast.unparse(t)[:30])
                     elif isinstance(t, ast.Name):
-                        al[t.id] = set()
+                        setname(al, t.id, (set(), set()))
                 continue
             if isinstance(st, (ast.For, ast.AsyncFor, ast.While)):
                 if isinstance(st, ast.While):
                     visit_expr(st.test, al)
                 else:
                     visit_expr(st.iter, al)
-                    elem = _may_alias(st.iter, al)       # iterating a container of the caller hands out its elements
-                    for x in ast.walk(st.target):
-                        if isinstance(x, ast.Name):
-                            al[x.id] = set()
-                state = dict(al)
+                    bind_target(st.target, elem(R2(st.iter, al)), al)      # iterating a container hands out its items
+                state_ = copy_state(al)
                 for _ in range(3):       # to a fixpoint for the small lattices at hand
-                    after = run(st.body, {k: set(v) for k, v in state.items()})
-                    joined = _union(state, after)
-                    if joined == state:
+                    after = run(st.body, copy_state(state_))
+                    joined = _union(state_, after)
+                    if joined == state_:
                         break
-                    state = joined
-                al = _union(state, run(st.orelse, {k: set(v) for k, v in state.items()}))
+                    state_ = joined
+                al = _union(state_, run(st.orelse, copy_state(state_)))
                 continue
             if isinstance(st, ast.If):
                 visit_expr(st.test, al)
-                a1 = run(st.body, {k: set(v) for k, v in al.items()})
-                a2 = run(st.orelse, {k: set(v) for k, v in al.items()})
-                # `if p is None: p = <fresh>`: on the path where the test holds the name held None, not the caller's object
+                a1 = run(st.body, copy_state(al))
+                a2 = run(st.orelse, copy_state(al))
                 al = _union(a1, a2)
                 continue
             if isinstance(st, (ast.With, ast.AsyncWith)):
                 for i in st.items:
                     visit_expr(i.context_expr, al)
                     if i.optional_vars is not None:
-                        for x in ast.walk(i.optional_vars):
-                            if isinstance(x, ast.Name):
-                                al[x.id] = set()
+                        bind_target(i.optional_vars, R2(i.context_expr, al), al)
                 al = run(st.body, al)
                 continue
             if isinstance(st, ast.Try):
-                start = {k: set(v) for k, v in al.items()}
-                a_body = run(st.body, {k: set(v) for k, v in al.items()})
-                state = _union(start, a_body)
-                outs = [run(st.orelse, {k: set(v) for k, v in a_body.items()})]
+                start = copy_state(al)
+                a_body = run(st.body, copy_state(al))
+                state_ = _union(start, a_body)
+                outs = [run(st.orelse, copy_state(a_body))]
                 for h in st.handlers:
-                    outs.append(run(h.body, {k: set(v) for k, v in state.items()}))
+                    outs.append(run(h.body, copy_state(state_)))
                 al = outs[0]
                 for o in outs[1:]:
                     al = _union(al, o)
@@ -228,11 +311,24 @@ def _scan(q, f, funcs, by_name, result):
                 for ch in ast.iter_child_nodes(st):
                     if isinstance(ch, ast.expr):
                         visit_expr(ch, al)
+                if isinstance(st, ast.Return) and st.value is not None and depth[0] == 0:
+                    returned.update(both(R2(st.value, al)) & set(ps))
                 continue
             for ch in ast.iter_child_nodes(st):
                 if isinstance(ch, ast.expr):
                     visit_expr(ch, al)
         return al
 
-    run(f.body, {p: {p} for p in ps})
+    final = run(f.body, {p: {p} for p in ps})
+    # late binding: a nested function reads the caller's names as they are when it RUNS - once more with the final state
+    for st in list(nested):
+        inner = copy_state(final)
+        for a_ in ast.walk(st.args):
+            if isinstance(a_, ast.arg):
+                setname(inner, a_.arg, (set(), set()))
+        depth[0] += 1
+        run(st.body, inner)
+        depth[0] -= 1
+    if returned:
+        found["__returns__"] = sorted(returned)
     return found
